@@ -100,7 +100,10 @@ def _merge_phases(pha_tpi, pha_tnpi):
 
     # Assign the periods after the last empirical phase timepoint to NaN
     diffs = np.diff(pha)
-    last_empirical_idx = next(idx for idx, xi in enumerate(diffs[::-1]) if xi > 0)
-    pha[-last_empirical_idx + 1:] = np.nan
+    #   The phase is constant after the last cyclepoint, and the step into a final trough is the
+    #   pi to -pi wrap (a decrease), so look for the last change rather than the last increase
+    last_empirical_idx = next(idx for idx, xi in enumerate(diffs[::-1]) if xi != 0)
+    if last_empirical_idx > 0:
+        pha[-last_empirical_idx:] = np.nan
 
     return pha
